@@ -17,13 +17,16 @@
    contains exactly the entries satisfying [P], consists of max 1 (ceil (|l|/k)) pages, and reports
    total = |l| on every offset page when count_total is set.
 
-   Not covered here: the data-module queries (AttestationsByIRI/Attestor/Hash, ResolversByIRI/Hash/
-   URL), whose state model is Regen.Data.DataMsgs. *)
+   The data-module queries (AttestationsByIRI/Hash/Attestor, ResolversByIRI/Hash/URL, Resolver,
+   AnchorByIRI) are modelled over the data state Regen.Data.DataMsgs (association lists); their
+   no-duplicate statements assume the key-uniqueness fields of the data invariant Inv_data
+   (Data/DataInv.v: inv_att_keys, inv_dr_nodup, inv_res_keys, inv_id_iris). *)
 From stdpp Require Import gmap.
 From Coq Require Import Strings.String ZArith NArith List Bool Strings.Byte Permutation.
 Require Import Regen.Base.Bytes Regen.Base.Calendar Regen.Dec.Dec Regen.Ids.Ids.
 Require Import Regen.Ledger.Types Regen.Ledger.Msgs Regen.Ledger.Orm Regen.Ledger.BaseMsgs Regen.Ledger.BasketMsgs.
 Require Import Regen.Query.Paginate Regen.Query.PaginateProps Regen.Query.Queries Regen.Query.QueriesProps.
+Require Regen.Data.DataMsgs.
 Import ListNotations.
 
 (* the index order is produced by Ledger/Orm.v [sort_by]: it only reorders *)
@@ -317,6 +320,58 @@ Theorem C17_basket_balance_stored : forall ab s bd d r,
     end.
 Proof. exact q_basket_balance_stored. Qed.
 Print Assumptions C17_basket_balance_stored.
+
+(* ---------- x/data list queries ---------- *)
+
+(* AttestationsByIRI / ByHash scan the attestations of the data id found for the IRI *)
+Theorem C17_attestations_by_iri : forall ab d id,
+  List.NoDup (map fst (DataMsgs.attestors d)) ->
+  exact_list (q_attestations_by_id ab d id) (fun e => List.In e (DataMsgs.attestors d) /\ e.1.1 = id).
+Proof. exact q_attestations_by_id_spec. Qed.
+Print Assumptions C17_attestations_by_iri.
+
+Theorem C17_attestations_by_attestor : forall d a,
+  List.NoDup (map fst (DataMsgs.attestors d)) ->
+  exact_list (q_attestations_by_attestor d a) (fun e => List.In e (DataMsgs.attestors d) /\ e.1.2 = a).
+Proof. exact q_attestations_by_attestor_spec. Qed.
+Print Assumptions C17_attestations_by_attestor.
+
+Theorem C17_resolvers_by_iri : forall d id,
+  List.NoDup (DataMsgs.data_resolvers d) ->
+  exact_list (q_data_resolvers_by_id d id) (fun e => List.In e (DataMsgs.data_resolvers d) /\ e.1 = id).
+Proof. exact q_data_resolvers_by_id_spec. Qed.
+Print Assumptions C17_resolvers_by_iri.
+
+Theorem C17_resolvers_by_url : forall d url,
+  List.NoDup (map fst (DataMsgs.resolvers d)) ->
+  exact_list (q_resolvers_by_url d url) (fun e => List.In e (DataMsgs.resolvers d) /\ e.2.1 = url).
+Proof. exact q_resolvers_by_url_spec. Qed.
+Print Assumptions C17_resolvers_by_url.
+
+Theorem C17_data_id_by_iri_sound : forall d iri id, data_id_by_iri d iri = Some id -> List.In (id, iri) (DataMsgs.data_ids d).
+Proof. exact data_id_by_iri_sound. Qed.
+Print Assumptions C17_data_id_by_iri_sound.
+
+Theorem C17_data_id_by_iri_complete : forall d iri id,
+  List.NoDup (map snd (DataMsgs.data_ids d)) -> List.In (id, iri) (DataMsgs.data_ids d) -> data_id_by_iri d iri = Some id.
+Proof. exact data_id_by_iri_complete. Qed.
+Print Assumptions C17_data_id_by_iri_complete.
+
+Theorem C17_run_attestations_by_iri : forall ab d iri,
+  iri_ok iri = true ->
+  match data_id_by_iri d iri with
+  | Some id => run_data_query ab d (DQAttestationsByIRI iri) =
+               QPaged (map (fun e : bytes * addr * ts => Some (RAttestation iri e.1.2 e.2)) (q_attestations_by_id ab d id))
+  | None => run_data_query ab d (DQAttestationsByIRI iri) = QErr ENotFound
+  end.
+Proof. exact run_attestations_by_iri. Qed.
+Print Assumptions C17_run_attestations_by_iri.
+
+Theorem C17_resolver_stored : forall ab d id r,
+  run_data_query ab d (DQResolver id) = QOne r ->
+  exists v, DataMsgs.get_resolver id d = Some v /\ r = RResolver id v.1 v.2.
+Proof. exact q_resolver_stored. Qed.
+Print Assumptions C17_resolver_stored.
 
 (* ---------- concrete instances ---------- *)
 
